@@ -433,6 +433,12 @@ def run(ctx):
         for inst, v in sorted(f_(db, rep, prog).items()):
             r5.check(v[0], inst, v[1], v[2], v[3])
     r5.expect_min(4)
+    r6 = rep.rule('C12.6-lock-and-write-primitives', 'R-TABLE', 'lock_ex() waits for an exclusive lock and lock_un() releases it (the request reaching flock/lockf is evaluated): concurrent mbox deliveries are serialised, not skipped; allwrite() under every substdio_put/flush retries short writes until everything is written or a write fails, so success means the whole message reached the file')
+    for inst, v in sorted(libtab.lock_sites(db, rep, prog, which=('lock_ex', 'lock_un')).items()):
+        r6.check(v[0], inst, v[1], v[2], v[3])
+    for inst, v in sorted(libtab.allwrite_result_sites(db, rep, prog).items()):
+        r6.check(v[0], inst, v[1], v[2], v[3])
+    r6.expect_min(3)
 
     r4 = rep.rule('C12.4-mbox-quoting', 'R-GUARD', '">" is written exactly for lines gfrom() accepts; gfrom skips ">"s and compares 5 bytes with "From "; the From_ line maps space, tab and newline of the sender to "-"')
     if 'mbox:quote-iff-gfrom(line)' in MH.sites:
